@@ -113,7 +113,7 @@ def exact_bin(op, a, b):
         return ("ok", lift(fa - math.floor(fa / fb) * fb))
     if op == "%":
         if fb == 0:
-            return ("skip", "rem_by_zero")
+            return ("err",)
         q = fa / fb
         t = math.floor(q) if q >= 0 else math.ceil(q)
         return ("ok", lift(fa - t * fb))
@@ -124,7 +124,7 @@ def exact_bin(op, a, b):
             r = fa ** b
             return ("ok", Fraction(r) if level(a) == 1 else int(r))
         if fa == 0:
-            return ("skip", "zero_to_negative")
+            return ("ok", math.inf)  # 1 / 0 falls back to float infinity, as `/` does
         return ("val", Fraction(1) / (fa ** (-b)))  # exact value, int or rational accepted
     raise ValueError(op)
 
